@@ -89,6 +89,15 @@ class World(object):
         one('e', 'c20', 'c00')                                   # closes a cycle d2 -> d0
         one('f', 'c10', 'c11', inverse=True)                     # inside d1, with an inverse function
         one('g', 'p0', 'c20')                                    # from a pixel attribute
+        # a MultiLink with two inputs and two outputs in both directions (four atomic links)
+        def fwd(p, q):
+            return aff('c00', 'c20')(p), aff('c00', 'c21')(p) + 0 * q
+
+        def bwd(p, q):
+            return aff('c20', 'c00')(p), aff('c20', 'c01')(p) + 0 * q
+        self.links['m'] = MultiLink([c['c00'], c['c01']], [c['c20'], c['c21']], forwards=fwd, backwards=bwd)
+        self.atoms['m'] = [(['c00', 'c01'], 'c20', 0.0), (['c00', 'c01'], 'c21', 0.0),
+                           (['c20', 'c21'], 'c00', 0.0), (['c20', 'c21'], 'c01', 0.0)]
         if n > 3:
             one('h', 'c30', 'c01')
             self.links['i'] = LinkTwoWay(c['c31'], c['c10'], aff('c31', 'c10'), aff('c10', 'c31'))
@@ -280,10 +289,12 @@ class Scenario(object):
 def tiers(tier):
     if tier == 'quick':
         return [('exact3', Scenario(3, ['a', 'b', 'c', 'd', 'e', 'f', 'g'], comps=('c11', 'n0'), data=(1, 2)), 6),
-                ('detour', Scenario(3, ['a', 'x', 'y', 'b'], comps=('c10',), data=(1,), delay=False), 7)]
+                ('detour', Scenario(3, ['a', 'x', 'y', 'b'], comps=('c10',), data=(1,), delay=False), 7),
+                ('multi', Scenario(3, ['m', 'a', 'b', 'c'], comps=('c01', 'c20'), data=(2,), delay=False), 5)]
     return [('exact3', Scenario(3, ['a', 'b', 'c', 'd', 'e', 'f', 'g'], comps=('c11', 'n0', 'c20'), data=(0, 1, 2)), 6),
             ('exact4', Scenario(4, ['a', 'b', 'c', 'd', 'e', 'f', 'g', 'h', 'i', 'j'], comps=('c11',), data=(1, 3)), 5),
-            ('detour', Scenario(3, ['a', 'x', 'y', 'b', 'e'], comps=('c10', 'c01'), data=(1, 2)), 7)]
+            ('detour', Scenario(3, ['a', 'x', 'y', 'b', 'e'], comps=('c10', 'c01'), data=(1, 2)), 7),
+            ('multi', Scenario(3, ['m', 'a', 'b', 'c', 'f'], comps=('c01', 'c20', 'c11'), data=(1, 2)), 6)]
 
 
 def run(tier):
